@@ -11,6 +11,7 @@ import (
 	"os"
 	"path/filepath"
 	"sort"
+	"strconv"
 	"strings"
 	"time"
 
@@ -49,6 +50,8 @@ func main() {
 	flag.Var(&cuts, "cut", "name=kind (kind: havoc|uf|noop)")
 	strBytes := flag.Bool("strbytes", false, "constrain fresh strings to bytes")
 	maxStr := flag.Int("maxstr", 0, "max length of fresh strings (0 = unbounded)")
+	var params multi
+	flag.Var(&params, "param", "name=int harness parameter (zzvrt.Param)")
 	bvstr := flag.Bool("bvstr", false, "strings as bounded byte vectors of capacity -maxstr (QF_BV)")
 	smtlog := flag.String("smtlog", "", "write solver transcript to file")
 	deadline := flag.Int("deadline", 0, "wall-clock budget in seconds (0 = none)")
@@ -105,7 +108,14 @@ func main() {
 		}
 		cfg := symex.Config{MaxDepth: *maxDepth, MaxLoop: *maxLoop, MaxPaths: *maxPaths, MaxSteps: *maxSteps,
 			Sched: *sched, Preempt: *preempt, Cuts: cutMap, ModulePath: modPath, Verbose: *verbose,
-			StrBytes: *strBytes, MaxStrLen: *maxStr, BVStr: *bvstr}
+			StrBytes: *strBytes, MaxStrLen: *maxStr, BVStr: *bvstr, Params: map[string]int{}}
+		for _, p := range params {
+			kv := strings.SplitN(p, "=", 2)
+			if len(kv) == 2 {
+				n, _ := strconv.Atoi(kv[1])
+				cfg.Params[kv[0]] = n
+			}
+		}
 		symex.BVStrMode = *bvstr
 		if *deadline > 0 {
 			cfg.Deadline = time.Now().Add(time.Duration(*deadline) * time.Second)
